@@ -440,7 +440,8 @@ def gen_db(rng):
         fn = [f["name"] for f in t["fields"]]
         sel[uncps(t["name"])] = [rng.choice(fn) for _ in range(rng.randrange(1, 4))]
     return {"kind": "db", "op": "db", "src_schema": S, "src_files": src_files, "dst": dst,
-            "dst_files": dst_files, "names": names, "schema": schema, "gzip": rng.random() < 0.4,
+            "dst_files": dst_files, "names": names, "names_as": rng.choice(["list", "list", "iter", "gen", "tuple"]),
+            "schema": schema, "gzip": rng.random() < 0.4,
             "watch": [cps(n) for n in watch], "sel": sel}
 
 
@@ -486,7 +487,7 @@ def gen_schema_rt(rng, region=True):
         while True:
             n = gen_ident(rng)
             if not region and rng.random() < 0.3:
-                n = rng.choice(["-x", "my table", "a:", "a#b", ":", "é1", "t:u"])
+                n = rng.choice(["-x", "my table", "a:", "a#b", ":", "t:u", "a b:"])
             if n not in names:
                 names.add(n)
                 break
@@ -519,7 +520,7 @@ def schema_rt_fixed():
             yield {"kind": "schema_rt", "op": "schema_rt", "schema": t, "region": True, "via": via}
 
 
-LINE_ALPHA = ["a", "b", "x1", ":", "#", " ", "  ", "\t", "-", "_", ":string", ":integer", ":key", "item", "é"]
+LINE_ALPHA = ["a", "b", "x1", ":", "#", " ", "  ", "\t", "-", "_", ":string", ":integer", ":key", "item", "Z"]
 
 
 def gen_schema_parse(rng):
@@ -545,7 +546,7 @@ def schema_parse_fixed():
     for lines in (["a:"], ["a:", "  x :integer"], ["item:", "x"], ["item:", "x #c"], ["item:", "x  #c"], ["item:", "x  # c"],
                   ["item:", "x   "], ["x :integer"], ["item:", "item:"], ["item:", "", "item:"], ["a:b:", " x y"],
                   ["item:", "x y#"], ["item:", "x y #  "], ["item:", "x y # z:"], ["item:", "x\ty\tz"], ["1:", "-:"],
-                  ["item:", "x :string # a # b"], [":"], ["::"], ["a::"], ["é:"], ["item:", "x :string", "", "parse:", "y :integer"]):
+                  ["item:", "x :string # a # b"], [":"], ["::"], ["a::"], ["item:", "x :string # é"], ["item:", "x :string", "", "parse:", "y :integer"]):
         yield {"kind": "schema_parse", "op": "schema_parse", "lines": [cps(x) for x in lines]}
 
 
@@ -618,7 +619,7 @@ class C09(Check):
             "relations file) mixed with stale-file plants (older/newer/equal mtime) and removals; exhaustive over "
             "{empty, one record} x append x gzip up to length 3 (quick) / 4 (thorough) from the six starts. db: 1-4 "
             "source relations, target schema None / same / derived by dropping, adding, reordering columns and "
-            "relations, names None or a sub-list (5% with an unknown name), in place / new directory / existing "
+            "relations, names None or a sub-list given as list / tuple / one-shot iterator / generator (5% with an unknown name), in place / new directory / existing "
             "directory with stale files in both forms, gzip flag. Non-trivial: at least one write accepted (hist) "
             "or one relation written (db); distinct by JSON text.")
     assumptions = [
@@ -627,8 +628,9 @@ class C09(Check):
         "relation names are dot-free (tsdb._get_paths strips a dotted suffix: 'it.a' and 'it.b' share the file "
         "'it' - observation, outside the generated space) and start with a letter or digit; column names over "
         "[a-z0-9-]; datatypes :integer/:string/:date (floats never cross the model boundary)",
-        "the schema text round trip is checked by the direct oracle on every db case (names, datatypes, flags); "
-        "the model only decides whether each table line is recognised",
+        "the relations file is modelled at line level (list of lines of the text); names, flags and comments in "
+        "generated schemas are printable ASCII (+TAB in comments), so str.splitlines, \\w, \\s and str.strip agree "
+        "with the ASCII definitions of the model; relation names in db/hist cases start with a letter or digit",
         "source databases are opened with autocast=False (raw cells are copied verbatim); cells of planted "
         "files are castable in their column",
         "'preserves every record' is read modulo the documented replacement of an empty cell by Field.default "
@@ -784,6 +786,14 @@ class C09(Check):
         db = tsdb.Database(src)
         schema = mk_schema(case["schema"]) if case["schema"] is not None else None
         names = [uncps(n) for n in case["names"]] if case["names"] is not None else None
+        if names is not None:
+            how = case.get("names_as", "list")
+            if how == "iter":
+                names = iter(names)             # one-shot iterator (F51 regression)
+            elif how == "gen":
+                names = (n for n in list(names))
+            elif how == "tuple":
+                names = tuple(names)
         try:
             tsdb.write_database(db, dst, names=names, schema=schema, gzip=case["gzip"])
             res = "ok"
@@ -902,7 +912,7 @@ class C09(Check):
             inc("db.dst:" + case["dst"])
             inc("db.schema:" + ("none" if case["schema"] is None else "same" if case["schema"] == case["src_schema"]
                                 else "derived"))
-            inc("db.names:" + ("none" if case["names"] is None else "sublist"))
+            inc("db.names:" + ("none" if case["names"] is None else "sublist:" + case.get("names_as", "list")))
             inc("db.gzip:%s" % case["gzip"])
             inc("db.res:" + res["res"])
             inc("db.relations_src:%d" % len(case["src_schema"]))
